@@ -18,6 +18,7 @@ Data formats that describe the general structure of the data.
 import codecs
 import csv
 import string
+import sys
 import token
 import tokenize
 
@@ -496,6 +497,10 @@ class DataFormat(object):
         # TODO: Handle 'none' properly.
         assert result_code is not None
         assert result_code >= 0
+        if result_code > sys.maxunicode:
+            raise errors.InterfaceError(
+                "code for %s is %d but must be at most %d" % (name_for_errors, result_code, sys.maxunicode), location
+            )
         result = chr(result_code)
         return result
 
